@@ -2,7 +2,7 @@ SPECIFICATION Spec
 CONSTANTS
   Part = "split"
   UNames <- UAll
-  UNames3 <- UAll
+  UNames3 <- UThor3
   MaxLen = 3
   ArgsOne <- AOneAll
   ArgsPair <- APairAll
